@@ -39,7 +39,8 @@ Inductive cop :=
 | OpTryInactive       (* try_mark_inactive (145-162) *)
 | OpInactiveOrDeq     (* try_mark_inactive_or_dequeue_all (168-180) *)
 | OpTryActive         (* try_mark_active (60-67) *)
-| OpFinal.            (* wait until every producer is done, then try_mark_active; dequeue_all *)
+| OpFinal.            (* wait until every producer is done, then try_mark_active; dequeue_all;
+                         the script ends here (anything after it is ignored) *)
 
 Inductive cpc :=
 | CStart                    (* about to make the first access of the next operation of the script *)
@@ -175,7 +176,7 @@ Definition step_cons (s : st) : option (st * list ev) :=
           | OpTryActive => Some (do_mark_active s rest)
           | OpFinal =>
               if all_prods_done s
-              then let (s1, e) := do_mark_active s (OpDeq :: rest) in Some (set_final s1, e)
+              then let (s1, e) := do_mark_active s [OpDeq] in Some (set_final s1, e)
               else None
           | OpDeq =>
               if inactive s then self_wake s op rest
